@@ -97,26 +97,68 @@ class Script(object):
         return FakeResponse(ex[1], ex[2])
 
 
-def run_push(letters, retries, delay, consumer="my.consumer", message="MSG", use_defaults=False):
-    """run the real post_to_senaite; returns (trace string in driver syntax, raised?, payload problems)"""
+class VirtualTime(object):
+    """every clock of the `time` module (and every alias of one that the lims module holds) reads a virtual clock that
+    the scripted exchanges and sleep() advance: answers may take as long as their time limits allow"""
+    NAMES = ["monotonic", "time", "perf_counter", "monotonic_ns", "time_ns", "perf_counter_ns", "process_time"]
+
+    def __init__(self, lims):
+        import time as _t
+        self.t = 1000.0
+        self.lims = lims
+        self.saved_time = {n: getattr(_t, n) for n in self.NAMES}
+        self.saved_lims = {}
+        fake = {n: ((lambda self=self: int(self.t * 1e9)) if n.endswith("_ns") else (lambda self=self: self.t)) for n in self.NAMES}
+        for k, v in list(vars(lims).items()):
+            for n, real in self.saved_time.items():
+                if v is real:
+                    self.saved_lims[k] = v
+                    setattr(lims, k, fake[n])
+        for n in self.NAMES:
+            setattr(_t, n, fake[n])
+
+    def restore(self):
+        import time as _t
+        for n, f in self.saved_time.items():
+            setattr(_t, n, f)
+        for k, v in self.saved_lims.items():
+            setattr(self.lims, k, v)
+
+
+def run_push(letters, retries, delay, consumer="my.consumer", message="MSG", use_defaults=False, durations=None):
+    """run the real post_to_senaite; returns (trace string in driver syntax, raised?, payload problems)
+    durations: list of seconds the successive exchanges take on a virtual clock (None: no time passes)"""
     from senaite.astm import lims
     script = Script([ALPHABET[l][1] for l in letters])
     trace = []
+    vt = VirtualTime(lims) if durations is not None else None
+    durs = list(durations or [])
+    real_next = script.next_exchange
+
+    def timed_next(kind, url, payload, timeout=None):
+        if vt is not None:
+            d = durs.pop(0) if durs else 0
+            if kind == "get" and timeout is not None:
+                d = min(d, timeout)          # an answer never takes longer than the limit the caller set
+            vt.t += d
+        return real_next(kind, url, payload)
 
     class FakeSession(object):
         auth = None
 
         def get(self, url, timeout=None, **kw):
-            return script.next_exchange("get", url, None)
+            return timed_next("get", url, None, timeout)
 
-        def post(self, url, data=None, **kw):
-            return script.next_exchange("post", url, data)
+        def post(self, url, data=None, timeout=None, **kw):
+            return timed_next("post", url, data, timeout)
     orig_session, orig_sleep = lims.requests.Session, lims.sleep
     lims.requests.Session = FakeSession
     sleeps = []
 
     def fake_sleep(d):
         script.calls.append(("sleep", d, None))
+        if vt is not None:
+            vt.t += d
     lims.sleep = fake_sleep
     raised = None
     try:
@@ -128,6 +170,8 @@ def run_push(letters, retries, delay, consumer="my.consumer", message="MSG", use
             raised = type(e).__name__
     finally:
         lims.requests.Session, lims.sleep = orig_session, orig_sleep
+        if vt is not None:
+            vt.restore()
     # render the call log as acts
     acts, cur, n = [], None, 0
     bad_payload = None
@@ -214,6 +258,27 @@ def run(ctx):
         got = "err" if raised else "ok " + trace
         if ml is not None and ml != got:
             s.disagree(case, got, ml)
+    # answers that take time (each within the limit the caller set for it; the push itself has none): a slow LIMS is a
+    # fault like any other - the same attempts, in the same order, with the same waits as when no time passes
+    sl = Stream("slow-answers")
+    for _ in range(2000 if ctx.thorough else 250):
+        retries = r.choice([1, 2, 3, 3, 4, 5])
+        seq = [r.choice(list(ALPHABET)) for _ in range(max(1, retries))]
+        if r.random() < 0.5:
+            seq[-1] = "S"
+        delay = r.choice([0, 1, 5, 30])
+        durations = [r.choice([0, 0.2, 3, 45, 59, 60, 120, 600]) for _ in range(3 * len(seq))]
+        trace0, raised0, bad0 = run_push(seq, retries, delay)
+        trace, raised, bad = run_push(seq, retries, delay, durations=durations)
+        case = {"outcomes": seq, "retries": retries, "delay": delay, "durations": durations}
+        sl.case(case, nontrivial=sum(durations) > 60)
+        sl.count("total>%d" % (600 if sum(durations) > 600 else 60 if sum(durations) > 60 else 0))
+        bad_o = oracle(seq, retries, delay, trace, raised, bad)
+        if bad_o:
+            sl.fail(dict(case, trace=trace, raised=raised), bad_o[1] + " (answers took %s s)" % durations[:6], "slow-answers/" + bad_o[0])
+        elif (trace, raised) != (trace0, raised0):
+            sl.fail(dict(case, trace=trace, without_delays=trace0), "the push proceeds differently when the answers take time",
+                    "slow-answers/differs")
     # defaults: retries 3, delay 5, consumer from the documented contract
     d = Stream("defaults")
     trace, raised, bad = run_push(["Vc", "Vc", "Vc", "Vc"], None, None, use_defaults=True)
@@ -228,7 +293,7 @@ def run(ctx):
         import inspect
         if md != "ok 3 5 senaite.lis2a.import":
             d.disagree({"defaults": True}, "contract 3 5 senaite.lis2a.import", md)
-    streams = [s, d]
+    streams = [s, sl, d]
 
     # the command line sender: files -> messages -> the same push; the body of every attempt is observed as `requests`
     # would put it on the wire (form encoding consumes iterators exactly once)
@@ -431,7 +496,7 @@ def search(ctx, disagreements):
 
 def replay(payload):
     c = payload.get("case", {})
-    trace, raised, bad = run_push(c["outcomes"], c["retries"], c["delay"])
+    trace, raised, bad = run_push(c["outcomes"], c["retries"], c["delay"], durations=c.get("durations"))
     bad_o = oracle(c["outcomes"], c["retries"], c["delay"], trace, raised, bad)
     print("trace=%r raised=%r verdict=%r" % (trace, raised, bad_o))
     return 1 if bad_o else 0
